@@ -53,7 +53,59 @@ def scenarios(ctx):
             w["vcf_gt"] = vg
         w["opts"] = o
         scs.append({"world": w})
+    # ---- nested phase sets with a forced recombination behind the inner set (quartets) ----
+    for i in range(60 if ctx.quick else 1500):
+        scs.append({"world": nested_world(rng)})
     return scs
+
+
+def nested_world(rng):
+    """Quartet. M sites: one parent homozygous (they form the pedigree's master phase set); H sites: heterozygous in all four
+    members and linked by reads only to each other (a separate phase set NESTED inside the master set). The second child
+    switches its haplotype from the heterozygous parent somewhere among the M sites (often behind the inner set), which
+    the genotypes of the two children force."""
+    nm1, nh, nm2 = rng.randint(1, 3), rng.randint(2, 3), rng.randint(2, 4)
+    kinds = ["M"] * nm1 + ["H"] * nh + ["M"] * nm2
+    n = len(kinds)
+    het_parent = rng.choice(["s1", "s2"])          # the parent that is heterozygous at the M sites
+    hom_parent = "s2" if het_parent == "s1" else "s1"
+    hom_allele = rng.randint(0, 1)
+    mpos = [i for i, k in enumerate(kinds) if k == "M"]
+    switch_at = rng.choice(mpos[1:]) if len(mpos) > 1 else n   # child 2 switches before this site
+    truth = {s: [[]] for s in ("s1", "s2", "s3", "s4")}
+    for i, k in enumerate(kinds):
+        hp = rng.choice([[0, 1], [1, 0]])          # phase of the heterozygous parent (free)
+        truth[het_parent][0].append(list(hp))
+        truth[hom_parent][0].append([hom_allele, hom_allele] if k == "M" else rng.choice([[0, 1], [1, 0]]))
+    # transmissions: child 1 constant, child 2 switches its haplotype from het_parent at switch_at
+    t1_het, t1_hom = rng.randint(0, 1), rng.randint(0, 1)
+    t2_het, t2_hom = rng.randint(0, 1), rng.randint(0, 1)
+    for i, k in enumerate(kinds):
+        for child, th, to in (("s3", t1_het, t1_hom), ("s4", (t2_het if i < switch_at else 1 - t2_het), t2_hom)):
+            a_het = truth[het_parent][0][i][th]
+            a_hom = truth[hom_parent][0][i][to]
+            pair = [a_het, a_hom] if het_parent == "s1" else [a_hom, a_het]
+            truth[child][0].append(pair)
+    # make the H sites heterozygous in both children too (choose the hom_parent's transmitted allele accordingly)
+    for i, k in enumerate(kinds):
+        if k == "H":
+            for child in ("s3", "s4"):
+                a, b = truth[child][0][i]
+                if a == b:
+                    # flip the allele coming from hom_parent (which is heterozygous at H sites) by re-phasing that parent there
+                    truth[hom_parent][0][i] = truth[hom_parent][0][i][::-1]
+                    for c2, to in (("s3", t1_hom), ("s4", t2_hom)):
+                        th2 = t1_het if c2 == "s3" else (t2_het if i < switch_at else 1 - t2_het)
+                        a_het = truth[het_parent][0][i][th2]
+                        a_hom = truth[hom_parent][0][i][to]
+                        truth[c2][0][i] = [a_het, a_hom] if het_parent == "s1" else [a_hom, a_het]
+    hidx = [i for i, k in enumerate(kinds) if k == "H"]
+    reads = [{"sample": rng.choice(["s3", "s4", "s1"]), "chrom": 0, "hap": rng.randint(0, 1), "first": hidx[0], "last": hidx[-1],
+              "gap": None, "copies": rng.randint(1, 2)} for _ in range(rng.randint(1, 2))]
+    return {"seed": rng.randrange(10 ** 6), "chroms": [{"name": "chr1", "sites": [{"kind": "snv", "len": 1} for _ in kinds]}],
+            "samples": ["s1", "s2", "s3", "s4"], "truth": truth, "reads": reads, "errfree": False,
+            "ped": [["s1", "s2", "s3"], ["s1", "s2", "s4"]],
+            "opts": {"ped": True, "tag": rng.choice(["PS", "HP"]), "lists": {"read": rng.random() < 0.5, "gt": False, "recomb": True}}}
 
 
 def nontrivial(sc, events):
